@@ -21,7 +21,7 @@ theorem mem_subst1 (a b : Char) (s : List Char) (x : Char) (h : x ∈ Proofs.Flo
 /-- the text an admitted E-notation field writes, and what it parses to -/
 theorem fltE_written (f : Field) (dec : Nat) (fmt c : Char) (hk : f.kind = .flt dec fmt [c])
     (hfmt : fmt = 'E' ∨ fmt = 'e') (hdec : dec ≤ 12) (hsep : sepOk [c] = true)
-    (neg : Bool) (m : Nat) (e : Int) (hwf : wfn m e ∨ m = 0)
+    (neg : Bool) (m : Nat) (e : Int) (hwf : wfE m e dec ∨ m = 0)
     (hfits : Spec.C02.fits f (.dbl (.fin neg m e)) = true) (t : List Char)
     (ht : renderText f (.dbl (.fin neg m e)) = .ok t) :
     (∃ r, parseText f.kind t = some (.dbl r)) ∧ ¬ '\n' ∈ t ∧
@@ -48,10 +48,7 @@ theorem fltE_written (f : Field) (dec : Nat) (fmt c : Char) (hk : f.kind = .flt 
         · exact absurd h (by decide)
         · exact absurd h (by decide)
   rcases hwf with hwf | rfl
-  · have hm0 : m ≠ 0 := by
-      intro h0; subst h0
-      have := Proofs.Nearest.two_pow_pos 52
-      have := hwf.1; omega
+  · have hm0 : m ≠ 0 := hwf.1
     obtain ⟨r, hr, hfit⟩ := round_of_fits_E f dec fmt c hk hfmt neg m e hm0 hfits
     obtain ⟨t', h1, _, h3, _, m', e', k, _, hsci, hteq⟩ :=
       fltE_core f dec fmt c hk hfmt hc1 hc2 hc3 hc4 hc5 hc6 neg m e hwf hdec r hr hfit
@@ -75,10 +72,12 @@ theorem fltE_written (f : Field) (dec : Nat) (fmt c : Char) (hk : f.kind = .flt 
 def FldFE (f : Field) : Prop := f.kind = .int ∨ f.kind = .lit ∨ FltF f ∨ FltE f
 
 /-- what the property's "parsed values are representable" means for floats: finite,
-fitting; in an E-notation field moreover zero or normal (`2^-1022` and more) -/
+fitting; in an E-notation field moreover zero or at least `10^(decimals-322)` in magnitude
+(`Proofs.FloatE.wfE`: every normal double, and the subnormal ones whose last emitted digit has
+place value `10^-322` or more) -/
 def FitFE (f : Field) (l : List Char) : Prop :=
   ∀ y, f.readText l = .dbl y →
-    ∃ neg m e, y = .fin neg m e ∧ Proofs.FloatLoop.wfs m e ∧ Spec.C02.fits f (.dbl y) = true ∧ (FltE f → wfn m e ∨ m = 0)
+    ∃ neg m e, y = .fin neg m e ∧ Proofs.FloatLoop.wfs m e ∧ Spec.C02.fits f (.dbl y) = true ∧ (∀ dec fmt c, f.kind = .flt dec fmt [c] → (fmt = 'E' ∨ fmt = 'e') → wfE m e dec ∨ m = 0)
 
 theorem fitF_of_fitFE {f : Field} {l : List Char} (h : FitFE f l) :
     ∀ y, f.readText l = .dbl y →
@@ -105,7 +104,7 @@ theorem law_of_read_FE (f : Field) (l : List Char) (hk : FldFE f) (hgeo : f.stop
       have hv : f.readText l = .dbl y := by simp [Field.readText, parseText, hk, hp]
       obtain ⟨neg, m, e, rfl, _, hfits, hwfn⟩ := hfitF y hv
       rw [hv]
-      rcases hwfn ⟨dec, fmt, c, hk, hfmt, hdec, hsep⟩ with hw | rfl
+      rcases hwfn dec fmt c hk hfmt with hw | rfl
       · exact law_flt_E f dec fmt c hk hfmt hsep neg m e hw hdec hfits
       · exact law_flt_E_zero f dec fmt c hk hfmt hsep neg e hdec hfits
 
@@ -127,7 +126,7 @@ theorem no_newline_FE (f : Field) (l : List Char) (hk : FldFE f) (hline : ¬ '\n
       obtain ⟨neg, m, e, rfl, _, hfits, hwfn⟩ := hfitF y hv
       rw [hv] at ht
       exact (fltE_written f dec fmt c hk hfmt hdec hsep neg m e
-        (hwfn ⟨dec, fmt, c, hk, hfmt, hdec, hsep⟩) hfits t ht).2.1
+        (hwfn dec fmt c hk hfmt) hfits t ht).2.1
 
 theorem canon_some_FE (f : Field) (l : List Char) (v : Val) (hk : FldFE f)
     (hvread : v = f.readText l) (hvn : v ≠ .none) (hfitF : FitFE f l)
@@ -147,7 +146,7 @@ theorem canon_some_FE (f : Field) (l : List Char) (v : Val) (hk : FldFE f)
       have : v = .dbl (.fin neg m e) := by rw [hvread, hv]
       subst this
       obtain ⟨⟨r, hr⟩, _⟩ := fltE_written f dec fmt c hk hfmt hdec hsep neg m e
-        (hwfn ⟨dec, fmt, c, hk, hfmt, hdec, hsep⟩) hfits t ht
+        (hwfn dec fmt c hk hfmt) hfits t ht
       rw [hk] at hr
       simp only [parseText] at hr
       cases hq : Dbl.pyFloat (replace t [c] ['.']) with
@@ -159,8 +158,8 @@ theorem canon_some_FE (f : Field) (l : List Char) (v : Val) (hk : FldFE f)
 For every unambiguous list of positional register types whose fields are integers, literals,
 F-notation floats (up to 323 decimals) or E-notation floats (up to twelve decimals), and every
 text whose parsed numbers are representable in their fields (integers fit when printed;
-floats are finite and fit when printed; in E-notation fields zero or normal,
-`2^-1022` and more): read-then-write is a projection and `Spec.C06.holds`. -/
+floats are finite and fit when printed; in E-notation fields zero or of magnitude
+`10^(decimals-322)` and more — every normal double, most subnormal ones): read-then-write is a projection and `Spec.C06.holds`. -/
 theorem main_regs_FE (regs : List RegDef) (x : List Char) (hamb : unambiguous regs = true)
     (hdel : ∀ r ∈ regs, r.delimiter = .none)
     (hkinds : ∀ r ∈ regs, ∀ f ∈ r.fields, FldFE f ∧ f.stop = f.size + f.start)
@@ -223,7 +222,10 @@ example :
     · rw [hr1] at hy
       injection hy with hy; subst hy
       exact ⟨false, _, _, rfl, ⟨by decide, by decide, by decide⟩, by decide +kernel,
-        fun _ => Or.inl ⟨by decide, by decide, by decide, by decide⟩⟩
+        fun dec fmt c hk _ => by
+          simp only [Field.mk', Kind.flt.injEq] at hk
+          obtain ⟨rfl, _, _⟩ := hk
+          exact Or.inl (wfE_of_wfn _ _ _ ⟨by decide, by decide, by decide, by decide⟩ (by decide))⟩
     · rw [hr2] at hy; exact absurd hy (by simp)
 
 end Props.C06
